@@ -850,10 +850,10 @@ def c11(prop, tier, seed):
 
 def c11_auto(prop, tier, seed):
     if tier == "quick":
-        return auto_family(prop, tier, seed, ["CacheAuto_quick.cfg", "CacheAuto_away.cfg", "CacheAuto_overflow.cfg"], [("CacheAuto_gen1.cfg", 40, 40), ("CacheAuto_gen3.cfg", 15, 40)],
+        return auto_family(prop, tier, seed, ["CacheAuto_quick.cfg", "CacheAuto_away.cfg", "CacheAuto_overflow.cfg", "CacheAuto_loose.cfg"], [("CacheAuto_gen1.cfg", 40, 40), ("CacheAuto_gen3.cfg", 15, 40)],
                            [("CacheAuto_quick.cfg", [("FIX_CREATE", []), ("FIX_READD", [("MaxFsOps = 4", "MaxFsOps = 5"), ("FIX_SCANWATCHED = TRUE", "FIX_SCANWATCHED = FALSE")]), ("FIX_SCANWATCHED", [("MaxFsOps = 4", "MaxFsOps = 5")])]),
                             ("CacheAuto_away.cfg", [("FIX_RENAMEDIR", []), ("FIX_SCANWATCHED", [])]), ("CacheAuto_overflow.cfg", [("FIX_OVERFLOW", [])])], "The rename-away history class (outside the statement's list) is included.")
-    return auto_family(prop, tier, seed, ["CacheAuto_thorough.cfg", "CacheAuto_2dir.cfg", "CacheAuto_away.cfg", "CacheAuto_overflow.cfg"],
+    return auto_family(prop, tier, seed, ["CacheAuto_thorough.cfg", "CacheAuto_2dir.cfg", "CacheAuto_away.cfg", "CacheAuto_overflow.cfg", "CacheAuto_loose.cfg"],
                        [("CacheAuto_gen1.cfg", 400, 40), ("CacheAuto_gen2.cfg", 300, 60), ("CacheAuto_gen3.cfg", 200, 40)],
                        [("CacheAuto_quick.cfg", [("FIX_CREATE", []), ("FIX_READD", [("MaxFsOps = 4", "MaxFsOps = 5"), ("FIX_SCANWATCHED = TRUE", "FIX_SCANWATCHED = FALSE")]), ("FIX_SCANWATCHED", [("MaxFsOps = 4", "MaxFsOps = 5")])]),
                         ("CacheAuto_away.cfg", [("FIX_RENAMEDIR", []), ("FIX_SCANWATCHED", [])]), ("CacheAuto_overflow.cfg", [("FIX_OVERFLOW", [])])], "The rename-away history class (outside the statement's list) is included.")
